@@ -284,6 +284,10 @@ func checkC03(c *Ctx) {
 		}
 	}
 
+	// C03.8 the gates compare the proposal with what its certificate claims (view, block): the certificate verifier
+	// must bind those claims to the signed block (shared with C02.1 / C02.3)
+	c.importFrom(checkC02, "C03.8", "C02.1", "C02.3")
+
 	// C03.7 OnLocalTimeout: a signed timeout implies StopVoting(currentView) before leaving
 	olt := p.Method("protocol/synchronizer", "Synchronizer", "OnLocalTimeout")
 	if olt != nil && stopVoting != nil {
